@@ -70,6 +70,7 @@ def plan(tier, seed):
     nrand = 16 if tier == "quick" else 400
     for i in range(nrand):
         jobs.append({"k": "rand", "i": i, "seed": seed})
+    jobs.append({"k": "nested", "seed": seed})
     return jobs
 
 
@@ -92,6 +93,9 @@ def _sets(b, exp):
     return {"config": ["%s/%s/%s" % (a.get("keep-sorted"), "pattern" if a.get("keep-sorted-pattern") else "-",
                                       a.get("keep-sorted-format", "-"))],
             "verdict": ["violation" if exp else "in-order"]}
+
+
+ATTRS_NESTED = [[("keep-sorted", "asc")], [("keep-sorted", "desc")], [("keep-sorted", "asc"), ("keep-sorted-pattern", "name=\\\"(?P<value>\\w+)\\\"")]]
 
 
 def run_job(job, ctx):
@@ -133,6 +137,19 @@ def run_job(job, ctx):
                 if len(blocks) >= 2500:
                     flush()
         flush()
+    elif job["k"] == "nested":
+        # nested blocks: the inner blocks' tag lines are ordinary lines (keys) of the outer block, and each inner block is
+        # judged on its own content
+        import itertools as _it
+        blocks = []
+        k = 0
+        for attrs in ATTRS_NESTED:
+            for pre, inner, post in _it.product([[], ["a"], ["z"], ["b", "a"]], [["m"], ["a", "a"], []], [[], ["a"], ["zz"]]):
+                lines = list(pre) + ['# <block name="in' + str(k) + '">'] + list(inner) + ["# </block>"] + list(post)
+                k += 1
+                blocks.append(vbatch.BBlock(list(attrs), lines))
+        for c in vbatch.run_batch(ctx, blocks, "hash", "keep-sorted", model, sig_prefix="C06", prefix="outer", nontrivial_fn=_nontrivial, sets_fn=_sets):
+            acc.add(c)
     else:
         r = rng("c06", job["seed"], job["i"])
         blocks = []
